@@ -521,7 +521,7 @@ theorem fix_aux (P : Printer α) (kw : Tab → α) (hP : Stable P kw) (tv : Tab 
     `hP` are the per-class idempotence facts about the printers; `htv` says that the SFAC/FVAR lines of the
     written file read back to the table contents they were printed from (for FVAR this is `chunks_flatten`
     below; the harness checks both on every written file). -/
-theorem write_fixpoint (P : Printer α) (kw : Tab → α) (hP : Stable P kw) (f : List (PLine α))
+theorem write_fixpoint_of_tables (P : Printer α) (kw : Tab → α) (hP : Stable P kw) (f : List (PLine α))
     (hsp : ∀ l ∈ f, l.spliced = false)
     (htv : ∀ t, tableVals t (parse (cycle P f)) = tableVals t (parse f)) :
     cycle P (cycle P f) = cycle P f := by
@@ -557,14 +557,35 @@ theorem foldOut_skip {β : Type} (φ : Item α → List β) (inc X : List (PLine
       exact ih _ (fun s y hy => h s y (List.mem_cons_of_mem _ hy))
   rw [gen inc s hφ, hst]
 
-/-- the include file `inc` is self-contained: read from the top level it ends at the top level (its last line
-    does not end in `=`) and feeds no table (no SFAC/FVAR line) -/
+/-- the spliced content `inc` of an include file (nested files included) is self-contained: read from the top
+    level it ends at the top level (its last line does not end in `=`) and it feeds no table (no SFAC/FVAR line) -/
 def Closed (inc : List (PLine α)) : Prop :=
-  (∀ s : St, s.mode = .top → endSt s (inc.map markSpliced) = s) ∧ ∀ x ∈ inc, ∀ t, x.cls ≠ .tab t
+  (∀ s : St, s.mode = .top → endSt s inc = s) ∧ ∀ x ∈ inc, ∀ t, x.cls ≠ .tab t
 
 /-- every `+name` line of `f` is a complete line and names a self-contained (or unreadable) file -/
-def InclOk (fs : FS α) (f : List (PLine α)) : Prop :=
-  ∀ l ∈ f, ∀ n, l.incl = some n → l.cont = false ∧ Closed ((fs n).getD [])
+def InclOk (fs : FS α) (k : Nat) (f : List (PLine α)) : Prop :=
+  ∀ l ∈ f, ∀ n, l.incl = some n → l.cont = false ∧ Closed (expand fs k ((fs n).getD []))
+
+/-- every line that comes out of an include file, at any nesting depth, is recorded as included -/
+theorem expand_spliced (fs : FS α) : ∀ (k : Nat) (g : List (PLine α)), ∀ x ∈ expand fs k g, x.spliced = true := by
+  intro k
+  induction k with
+  | zero =>
+    intro g x hx
+    simp only [expand, List.mem_map] at hx
+    obtain ⟨y, _, rfl⟩ := hx
+    rfl
+  | succ k ih =>
+    intro g x hx
+    simp only [expand, List.mem_flatMap] at hx
+    obtain ⟨l, _, hx⟩ := hx
+    cases hi : l.incl with
+    | none => simp [hi] at hx; rw [hx]; rfl
+    | some n =>
+      simp [hi] at hx
+      rcases hx with rfl | hx
+      · rfl
+      · exact ih _ x hx
 
 theorem step_mode_top_of_not_cont (s : St) (l : PLine α) (h : l.cont = false) : (step s l).2.mode = .top := by
   obtain ⟨sS, sF, m⟩ := s
@@ -576,15 +597,15 @@ theorem step_mode_top_of_not_cont (s : St) (l : PLine α) (h : l.cont = false) :
     · simp [step, hs]
     · cases hc : l.cls <;> simp [step, hs, hc, contMode, h]
 
-theorem foldOut_splice {β : Type} (φ : Item α → List β) (fs : FS α)
-    (hφ : ∀ s (x : PLine α), (∀ t, x.cls ≠ .tab t) → φ (step s (markSpliced x)).1 = []) :
-    ∀ (f : List (PLine α)) (s : St), InclOk fs f → foldOut φ s (spliceNew fs f) = foldOut φ s f := by
+theorem foldOut_splice {β : Type} (φ : Item α → List β) (fs : FS α) (k : Nat)
+    (hφ : ∀ s (y : PLine α), y.spliced = true → (∀ t, y.cls ≠ .tab t) → φ (step s y).1 = []) :
+    ∀ (f : List (PLine α)) (s : St), InclOk fs k f → foldOut φ s (spliceNew fs k f) = foldOut φ s f := by
   intro f
   induction f with
   | nil => intros; rfl
   | cons l rest ih =>
     intro s hok
-    have hok' : InclOk fs rest := fun x hx => hok x (List.mem_cons_of_mem _ hx)
+    have hok' : InclOk fs k rest := fun x hx => hok x (List.mem_cons_of_mem _ hx)
     cases hi : l.incl with
     | none =>
       simp only [spliceNew, List.flatMap_cons, spliceLineNew, hi, List.singleton_append, foldOut]
@@ -594,10 +615,8 @@ theorem foldOut_splice {β : Type} (φ : Item α → List β) (fs : FS α)
       obtain ⟨hc, hcl, hnt⟩ := hok l (List.mem_cons_self ..) n hi
       simp only [spliceNew, List.flatMap_cons, spliceLineNew, hi, List.cons_append, foldOut]
       congr 1
-      rw [foldOut_skip φ _ _ (by
-            intro s x hx
-            obtain ⟨y, hy, rfl⟩ := List.mem_map.1 hx
-            exact hφ s y (hnt y hy)) _ (hcl _ (step_mode_top_of_not_cont s l hc))]
+      rw [foldOut_skip φ _ _ (fun s x hx => hφ s x (expand_spliced fs k _ x hx) (hnt x hx)) _
+            (hcl _ (step_mode_top_of_not_cont s l hc))]
       exact ih _ hok'
 
 theorem emit_step_spliced (P : Printer α) (tv : Tab → List α) (s : St) (y : PLine α) (hy : y.spliced = true)
@@ -626,18 +645,18 @@ theorem itemVals_step_notab (t : Tab) (s : St) (y : PLine α) (hnt : ∀ t, y.cl
       | tab t' => exact absurd hc (hnt t')
       | _ => simp [step, hs, hc, itemVals]
 
-/-- **include_transparent** (repaired code): the lines spliced in from include files leave no trace in the
-    written file — it is the file that is written when the `+name` lines are read as plain text. -/
-theorem include_transparent (P : Printer α) (fs : FS α) (f : List (PLine α)) (hok : InclOk fs f) :
-    cycle P (spliceNew fs f) = cycle P f := by
-  have hv : ∀ t, tableVals t (parse (spliceNew fs f)) = tableVals t (parse f) := by
+/-- **include_transparent**: the lines spliced in from include files — nested to any depth — leave no trace in
+    the written file: it is the file that is written when the `+name` lines are read as plain text. -/
+theorem include_transparent (P : Printer α) (fs : FS α) (k : Nat) (f : List (PLine α)) (hok : InclOk fs k f) :
+    cycle P (spliceNew fs k f) = cycle P f := by
+  have hv : ∀ t, tableVals t (parse (spliceNew fs k f)) = tableVals t (parse f) := by
     intro t
     simp only [tableVals, parse, foldOut_eq]
-    exact foldOut_splice _ fs (fun s x hx => itemVals_step_notab t s _ (by simpa [markSpliced] using hx)) f {} hok
-  have e : (fun t => tableVals t (parse (spliceNew fs f))) = (fun t => tableVals t (parse f)) := funext hv
+    exact foldOut_splice _ fs k (fun s y _ hy => itemVals_step_notab t s y hy) f {} hok
+  have e : (fun t => tableVals t (parse (spliceNew fs k f))) = (fun t => tableVals t (parse f)) := funext hv
   simp only [cycle, write, e]
   simp only [parse, foldOut_eq]
-  exact foldOut_splice _ fs (fun s x hx => emit_step_spliced P _ s _ rfl (by simpa [markSpliced] using hx)) f {} hok
+  exact foldOut_splice _ fs k (fun s y hy hnt => emit_step_spliced P _ s y hy hnt) f {} hok
 
 theorem iterO_fixed (g : List (PLine α) → Option (List (PLine α))) (x : List (PLine α)) (h : g x = some x) :
     ∀ n, iterO g n x = some x := by
@@ -646,20 +665,20 @@ theorem iterO_fixed (g : List (PLine α) → Option (List (PLine α))) (x : List
   | zero => rfl
   | succ n ih => simp [iterO, h, ih]
 
-/-- **include_no_accumulation** (repaired code): any number `n + 1` of read/write cycles of a file with include
-    files gives the file that one cycle without includes gives; in particular nothing accumulates.
-    Hypotheses: include names are used once (the code raises `ValueError` otherwise) and the include files are
-    self-contained — for the input and for the written file (`g`, whose `+name` lines are those of `f`). -/
-theorem include_no_accumulation [DecidableEq α] (P : Printer α) (kw : Tab → α) (hP : Stable P kw) (fs : FS α)
+/-- **include_no_accumulation**: any number `n + 1` of read/write cycles of a file with (nested) include files
+    gives the file that one cycle without includes gives; in particular nothing accumulates.
+    Hypotheses: every include name is used once (the code raises `ValueError` otherwise) and the include files are
+    self-contained — for the input and for the written file (`cycle P f`, whose `+name` lines are those of `f`). -/
+theorem include_no_accumulation_of_tables [DecidableEq α] (P : Printer α) (kw : Tab → α) (hP : Stable P kw) (fs : FS α) (k : Nat)
     (f : List (PLine α)) (hsp : ∀ l ∈ f, l.spliced = false)
     (htv : ∀ t, tableVals t (parse (cycle P f)) = tableVals t (parse f))
-    (hf : (includeNames f).Nodup ∧ InclOk fs f)
-    (hg : (includeNames (cycle P f)).Nodup ∧ InclOk fs (cycle P f)) (n : Nat) :
-    iterO (cycleNew P fs) (n + 1) f = some (cycle P f) := by
-  have h1 : cycleNew P fs f = some (cycle P f) := by
-    simp [cycleNew, hf.1, include_transparent P fs f hf.2]
-  have h2 : cycleNew P fs (cycle P f) = some (cycle P f) := by
-    simp [cycleNew, hg.1, include_transparent P fs _ hg.2, write_fixpoint P kw hP f hsp htv]
+    (hf : (includeNames (spliceNew fs k f)).Nodup ∧ InclOk fs k f)
+    (hg : (includeNames (spliceNew fs k (cycle P f))).Nodup ∧ InclOk fs k (cycle P f)) (n : Nat) :
+    iterO (cycleNew P fs k) (n + 1) f = some (cycle P f) := by
+  have h1 : cycleNew P fs k f = some (cycle P f) := by
+    simp [cycleNew, hf.1, include_transparent P fs k f hf.2]
+  have h2 : cycleNew P fs k (cycle P f) = some (cycle P f) := by
+    simp [cycleNew, hg.1, include_transparent P fs k _ hg.2, write_fixpoint_of_tables P kw hP f hsp htv]
   simp [iterO, h1, iterO_fixed _ _ h2 n]
 
 /-! ### number formatting and FVAR chunking: idempotence proved, not assumed -/
@@ -691,6 +710,297 @@ theorem chunksFuel_flatten (fuel n : Nat) (l : List α) (h : l.length ≤ fuel) 
 /-- **fvar_chunks**: the values read back from the FVAR lines (7 per line) are the values of the table -/
 theorem chunks_flatten (n : Nat) (l : List α) : (chunks n l).flatten = l :=
   chunksFuel_flatten _ _ _ (Nat.le_refl _)
+
+/-! ### the coalesced tables keep the content and the order of the input -/
+
+theorem foldOut_chain {β : Type} (φ : Item α → List β) (hb : ∀ l, φ (.blanked l) = []) (sS sF : Bool) (h : PLine α)
+    (cs X : List (PLine α)) (hc : contChain (h :: cs) = true) :
+    foldOut φ ⟨sS, sF, contMode h .objCont⟩ (cs ++ X) = foldOut φ ⟨sS, sF, .top⟩ X := by
+  induction cs generalizing h with
+  | nil =>
+    simp [contChain] at hc
+    simp [contMode, hc]
+  | cons c cs ih =>
+    simp [contChain] at hc
+    simp [contMode, hc.1, foldOut, step, hb]
+    exact ih c hc.2
+
+theorem foldOut_card_group {β : Type} (φ : Item α → List β) (hb : ∀ l, φ (.blanked l) = []) (sS sF : Bool)
+    (h : PLine α) (cs X : List (PLine α)) (hg : Group h cs) (hcls : h.cls = .obj ∨ h.cls = .atom) :
+    foldOut φ ⟨sS, sF, .top⟩ (h :: cs ++ X) = φ (.card h) ++ foldOut φ ⟨sS, sF, .top⟩ X := by
+  obtain ⟨h1, h2, _⟩ := hg
+  have := foldOut_chain φ hb sS sF h cs X h2
+  rcases hcls with hc | hc <;> simp [foldOut, step, h1, hc, this]
+
+def absorbedOut {β : Type} (φ : Item α → List β) (t : Tab) : List (PLine α) → List β
+  | [] => []
+  | h :: _ => φ (.absorbed t h)
+
+theorem foldOut_tab_groups_seen {β : Type} (φ : Item α → List β) (hb : ∀ l, φ (.blanked l) = []) (t : Tab) (s : St)
+    (hm : s.mode = .top) (hseen : s.seen t = true) (gs : List (List (PLine α))) (X : List (PLine α))
+    (hg : ∀ g ∈ gs, ∃ h cs, g = h :: cs ∧ Group h cs ∧ h.cls = .tab t) :
+    foldOut φ s (gs.flatten ++ X) = gs.flatMap (absorbedOut φ t) ++ foldOut φ s X := by
+  induction gs with
+  | nil => simp
+  | cons g gs ih =>
+    obtain ⟨h, cs, rfl, ⟨h1, h2, h3⟩, hc⟩ := hg g (List.mem_cons_self ..)
+    obtain ⟨sS, sF, m⟩ := s
+    simp at hm; subst hm
+    have e : List.flatten ((h :: cs) :: gs) ++ X = h :: (cs ++ (gs.flatten ++ X)) := by simp
+    have hmark : St.mark ⟨sS, sF, .top⟩ t = ⟨sS, sF, .top⟩ := by
+      cases t <;> simp [St.mark, St.seen] at hseen ⊢ <;> exact hseen
+    rw [e]
+    simp only [foldOut, step, h1, Bool.false_eq_true, if_false, hc, hseen, if_true, hmark, List.flatMap_cons,
+      absorbedOut, List.append_assoc]
+    rw [foldOut_chain φ hb sS sF h cs _ h2]
+    congr 1
+    exact ih (fun g hm => hg g (List.mem_cons_of_mem _ hm))
+
+/-- marks the table object of kind `t` -/
+def isTable (t : Tab) : Item α → List Unit
+  | .table t' _ => if t' = t then [()] else []
+  | _ => []
+
+theorem absorbedOut_itemVals (t t0 : Tab) (gs : List (List (PLine α))) :
+    gs.flatMap (absorbedOut (itemVals t0) t) = if t = t0 then gs.flatMap groupVals else [] := by
+  induction gs with
+  | nil => simp
+  | cons g gs ih =>
+    cases g with
+    | nil => simpa [absorbedOut, groupVals] using ih
+    | cons h cs =>
+      by_cases e : t = t0 <;> simp [absorbedOut, groupVals, itemVals, e] at ih ⊢ <;> exact ih
+
+/-- re-reading the written file collects, for table `t0`, exactly what the table object printed — once, at the
+    place where the table object stood -/
+theorem reread_vals (P : Printer α) (kw : Tab → α) (hP : Stable P kw) (tv : Tab → List α) (t0 : Tab) :
+    ∀ (f : List (PLine α)) (s : St), (∀ l ∈ f, l.spliced = false) →
+      foldOut (itemVals t0) (outState s) (outAux P tv s f)
+        = (foldOut (isTable t0) s f).flatMap (fun _ => tv t0) := by
+  have hb : ∀ l : PLine α, itemVals t0 (.blanked l) = [] := fun _ => rfl
+  intro f
+  induction f with
+  | nil => intros; rfl
+  | cons l rest ih =>
+    intro s hsp
+    have hl : l.spliced = false := hsp l (List.mem_cons_self ..)
+    have hsp' : ∀ l ∈ rest, l.spliced = false := fun x hx => hsp x (List.mem_cons_of_mem _ hx)
+    obtain ⟨sS, sF, m⟩ := s
+    cases m with
+    | objCont =>
+      have := ih ⟨sS, sF, contMode l .objCont⟩ hsp'
+      by_cases hc : l.cont = true <;> simpa [outAux, foldOut, step, emit, outState, contMode, hc, isTable] using this
+    | rawCont =>
+      have := ih ⟨sS, sF, contMode l .rawCont⟩ hsp'
+      by_cases hc : l.cont = true <;>
+        simp [outAux, foldOut, step, emit, outState, contMode, hc, hl, isTable, itemVals] at this ⊢ <;> exact this
+    | top =>
+      by_cases hskip : l.skip = true
+      · have := ih ⟨sS, sF, .top⟩ hsp'
+        by_cases he : l.empty = true
+        · simpa [outAux, foldOut, step, emit, outState, hskip, hl, he, isTable] using this
+        · simp [outAux, foldOut, step, emit, outState, hskip, hl, he, isTable, itemVals] at this ⊢; exact this
+      · have hskip' : l.skip = false := by simpa using hskip
+        have hemp : l.empty = false := by
+          have := hskip'; simp [PLine.skip] at this; exact this.2
+        have objCase : (l.cls = .obj ∨ l.cls = .atom) →
+            foldOut (itemVals t0) ⟨sS, sF, .top⟩ (P.card l ++ outAux P tv ⟨sS, sF, contMode l .objCont⟩ rest)
+              = (foldOut (isTable t0) ⟨sS, sF, contMode l .objCont⟩ rest).flatMap (fun _ => tv t0) := by
+          intro hcls
+          obtain ⟨h, cs, e, hg, hc, _⟩ := hP.card l hcls
+          rw [e, foldOut_card_group _ hb sS sF h cs _ hg (by rw [hc]; exact hcls)]
+          have := ih ⟨sS, sF, contMode l .objCont⟩ hsp'
+          by_cases hc' : l.cont = true <;> simpa [outState, contMode, hc', itemVals] using this
+        cases hcls : l.cls with
+        | raw =>
+          have := ih ⟨sS, sF, contMode l .rawCont⟩ hsp'
+          by_cases hc : l.cont = true <;>
+            simp [outAux, foldOut, step, emit, outState, hskip', hcls, hl, hemp, contMode, hc, isTable, itemVals] at this ⊢ <;>
+            exact this
+        | obj =>
+          have := objCase (Or.inl hcls)
+          simpa [outAux, foldOut, step, hskip', hcls, emit, hl, outState, isTable] using this
+        | atom =>
+          have := objCase (Or.inr hcls)
+          simpa [outAux, foldOut, step, hskip', hcls, emit, hl, outState, isTable] using this
+        | tab t =>
+          have ih' := ih { (St.mark ⟨sS, sF, .top⟩ t) with mode := contMode l .objCont } hsp'
+          have eos : outState { (St.mark ⟨sS, sF, .top⟩ t) with mode := contMode l .objCont }
+              = St.mark ⟨sS, sF, .top⟩ t := by
+            cases t <;> by_cases hc : l.cont = true <;> simp [outState, St.mark, contMode, hc]
+          rw [eos] at ih'
+          by_cases hseen : St.seen ⟨sS, sF, .top⟩ t = true
+          · have hmark : St.mark ⟨sS, sF, .top⟩ t = ⟨sS, sF, .top⟩ := by
+              cases t <;> simp [St.mark, St.seen] at hseen ⊢ <;> exact hseen
+            have hS : (St.mark ⟨sS, sF, .top⟩ t).seenS = sS := by rw [hmark]
+            have hF : (St.mark ⟨sS, sF, .top⟩ t).seenF = sF := by rw [hmark]
+            rw [hmark] at ih'
+            simpa [outAux, foldOut, step, hskip', hcls, hseen, emit, outState, hS, hF, isTable] using ih'
+          · simp only [outAux, foldOut, step, hskip', Bool.false_eq_true, if_false, hcls, hseen, emit, hl, outState,
+              reduceCtorEq, isTable, List.flatMap_append]
+            have hne := hP.table_ne t (tv t)
+            have hgs := hP.table t (tv t)
+            have hvals := hP.table_vals t (tv t)
+            cases egs : P.table t (tv t) with
+            | nil => exact absurd egs hne
+            | cons g gs =>
+              rw [egs] at hgs hvals
+              obtain ⟨h, cs, rfl, ⟨h1, h2, h3⟩, hc, _⟩ := hgs g (List.mem_cons_self ..)
+              have e' : ∀ X, List.flatten ((h :: cs) :: gs) ++ X = h :: (cs ++ (gs.flatten ++ X)) := by simp
+              rw [e']
+              simp only [foldOut, step, h1, Bool.false_eq_true, if_false, hc, hseen]
+              have em : ({ (St.mark ⟨sS, sF, .top⟩ t) with mode := contMode h .objCont } : St)
+                  = ⟨(St.mark ⟨sS, sF, .top⟩ t).seenS, (St.mark ⟨sS, sF, .top⟩ t).seenF, contMode h .objCont⟩ := rfl
+              rw [em, foldOut_chain _ hb _ _ h cs _ h2]
+              have em2 : (⟨(St.mark ⟨sS, sF, .top⟩ t).seenS, (St.mark ⟨sS, sF, .top⟩ t).seenF, .top⟩ : St)
+                  = St.mark ⟨sS, sF, .top⟩ t := by cases t <;> rfl
+              rw [em2, foldOut_tab_groups_seen _ hb t _ (by rw [mark_mode]) (mark_seen _ t) gs _
+                (fun g hm => by
+                  obtain ⟨h, cs, e, hg, hc, _⟩ := hgs g (List.mem_cons_of_mem _ hm)
+                  exact ⟨h, cs, e, hg, hc⟩), ih', absorbedOut_itemVals]
+              simp only [List.flatMap_cons, groupVals] at hvals
+              by_cases e : t = t0
+              · subst e
+                simp only [itemVals, if_true, ← List.append_assoc, hvals]
+                simp
+              · simp [itemVals, e]
+
+theorem seen_step (s : St) (l : PLine α) (t : Tab) (h : s.seen t = true) : (step s l).2.seen t = true := by
+  obtain ⟨sS, sF, m⟩ := s
+  cases m with
+  | objCont => simpa [step, St.seen] using h
+  | rawCont => simpa [step, St.seen] using h
+  | top =>
+    by_cases hs : l.skip = true
+    · simpa [step, hs] using h
+    · cases hc : l.cls with
+      | tab t' => cases t <;> cases t' <;> simp_all [step, St.seen, St.mark]
+      | _ => simpa [step, hs, hc, St.seen] using h
+
+theorem isTable_seen (t : Tab) : ∀ (f : List (PLine α)) (s : St), s.seen t = true → foldOut (isTable t) s f = [] := by
+  intro f
+  induction f with
+  | nil => intros; rfl
+  | cons l rest ih =>
+    intro s hs
+    simp only [foldOut, ih _ (seen_step s l t hs), List.append_nil]
+    obtain ⟨sS, sF, m⟩ := s
+    cases m with
+    | objCont => simp [step, isTable]
+    | rawCont => simp [step, isTable]
+    | top =>
+      by_cases hk : l.skip = true
+      · simp [step, hk, isTable]
+      · cases hc : l.cls with
+        | tab t' =>
+          by_cases e : t' = t
+          · subst e; simp [step, hk, hc, hs, isTable]
+          · by_cases h' : St.seen ⟨sS, sF, .top⟩ t' = true <;> simp [step, hk, hc, h', isTable, e]
+        | _ => simp [step, hk, hc, isTable]
+
+/-- the table object occurs at most once -/
+theorem isTable_le_one (t : Tab) : ∀ (f : List (PLine α)) (s : St),
+    foldOut (isTable t) s f = [] ∨ foldOut (isTable t) s f = [()] := by
+  intro f
+  induction f with
+  | nil => intro s; exact Or.inl rfl
+  | cons l rest ih =>
+    intro s
+    simp only [foldOut]
+    cases hit : isTable t (step s l).1 with
+    | nil => simpa using ih (step s l).2
+    | cons u us =>
+      -- the item is the table: from here on it has been seen
+      have hseen : (step s l).2.seen t = true := by
+        obtain ⟨sS, sF, m⟩ := s
+        cases m with
+        | objCont => simp [step, isTable] at hit
+        | rawCont => simp [step, isTable] at hit
+        | top =>
+          by_cases hk : l.skip = true
+          · simp [step, hk, isTable] at hit
+          · cases hc : l.cls with
+            | tab t' =>
+              by_cases h' : St.seen ⟨sS, sF, .top⟩ t' = true
+              · simp [step, hk, hc, h', isTable] at hit
+              · by_cases e : t' = t
+                · subst e
+                  simp [step, hk, hc]
+                  cases t' <;> rfl
+                · simp [step, hk, hc, h', isTable, e] at hit
+            | _ => simp [step, hk, hc, isTable] at hit
+      rw [isTable_seen t rest _ hseen]
+      have : us = [] := by
+        have hl : (isTable t (step s l).1).length ≤ 1 := by
+          cases (step s l).1 <;> simp [isTable]
+          split <;> simp
+        rw [hit] at hl
+        simpa using hl
+      right; simp [this]
+
+/-- no table object, and none before: no SFAC/FVAR line fed the table at all -/
+theorem vals_nil_of_no_table (t : Tab) : ∀ (f : List (PLine α)) (s : St), s.seen t = false →
+    foldOut (isTable t) s f = [] → foldOut (itemVals t) s f = [] := by
+  intro f
+  induction f with
+  | nil => intros; rfl
+  | cons l rest ih =>
+    intro s hs hT
+    simp only [foldOut, List.append_eq_nil_iff] at hT ⊢
+    obtain ⟨h1, h2⟩ := hT
+    obtain ⟨sS, sF, m⟩ := s
+    cases m with
+    | objCont => exact ⟨by simp [step, itemVals], ih _ (by simpa [step, St.seen] using hs) h2⟩
+    | rawCont => exact ⟨by simp [step, itemVals], ih _ (by simpa [step, St.seen] using hs) h2⟩
+    | top =>
+      by_cases hk : l.skip = true
+      · exact ⟨by simp [step, hk, itemVals], ih _ (by simpa [step, hk] using hs) (by simpa [step, hk] using h2)⟩
+      · cases hc : l.cls with
+        | tab t' =>
+          by_cases e : t' = t
+          · subst e
+            simp [step, hk, hc, hs, isTable] at h1
+          · have hs' : (step (⟨sS, sF, .top⟩ : St) l).2.seen t = false := by
+              cases t <;> cases t' <;> simp_all [step, St.seen, St.mark]
+            refine ⟨?_, ih _ hs' h2⟩
+            by_cases h' : St.seen ⟨sS, sF, .top⟩ t' = true <;> simp [step, hk, hc, h', itemVals, e]
+        | _ =>
+          refine ⟨by simp [step, hk, hc, itemVals], ih _ ?_ h2⟩
+          simpa [step, hk, hc, St.seen] using hs
+
+/-- **table_order_preserved**: what the SFAC lines (the FVAR lines) of the written file say, read in file order,
+    is what the SFAC (FVAR) lines of the input say, in the order of the input: coalescing neither loses,
+    duplicates nor reorders an entry (in particular the scattering-factor number of every element is kept). -/
+theorem table_order_preserved (P : Printer α) (kw : Tab → α) (hP : Stable P kw) (f : List (PLine α))
+    (hsp : ∀ l ∈ f, l.spliced = false) (t : Tab) :
+    tableVals t (parse (cycle P f)) = tableVals t (parse f) := by
+  have h := reread_vals P kw hP (fun t => tableVals t (parse f)) t f {} hsp
+  have e1 : tableVals t (parse (cycle P f))
+      = foldOut (itemVals t) (outState {}) (outAux P (fun t => tableVals t (parse f)) {} f) := by
+    rw [cycle_eq]
+    simp only [tableVals, parse, foldOut_eq]
+    rfl
+  rw [e1, h]
+  rcases isTable_le_one t f {} with h0 | h1
+  · rw [h0]
+    have := vals_nil_of_no_table t f {} (by cases t <;> rfl) h0
+    simp only [tableVals, parse, foldOut_eq]
+    simp [this]
+  · rw [h1]; simp
+
+/-- **write_fixpoint**: reading a written file and writing it again reproduces it, line for line.
+    The only hypotheses are the per-class idempotence facts about the printers (`Stable`). -/
+theorem write_fixpoint (P : Printer α) (kw : Tab → α) (hP : Stable P kw) (f : List (PLine α))
+    (hsp : ∀ l ∈ f, l.spliced = false) : cycle P (cycle P f) = cycle P f :=
+  write_fixpoint_of_tables P kw hP f hsp (table_order_preserved P kw hP f hsp)
+
+/-- **include_no_accumulation**: see `include_no_accumulation_of_tables`; the table hypothesis is discharged. -/
+theorem include_no_accumulation [DecidableEq α] (P : Printer α) (kw : Tab → α) (hP : Stable P kw) (fs : FS α) (k : Nat)
+    (f : List (PLine α)) (hsp : ∀ l ∈ f, l.spliced = false)
+    (hf : (includeNames (spliceNew fs k f)).Nodup ∧ InclOk fs k f)
+    (hg : (includeNames (spliceNew fs k (cycle P f))).Nodup ∧ InclOk fs k (cycle P f)) (n : Nat) :
+    iterO (cycleNew P fs k) (n + 1) f = some (cycle P f) :=
+  include_no_accumulation_of_tables P kw hP fs k f hsp (table_order_preserved P kw hP f hsp) hf hg n
 
 /-! ### the code before fixes/C07_1: included content accumulates (witness), and concrete instances -/
 
@@ -780,7 +1090,15 @@ theorem copies_old (n : Nat) :
   simp
 
 /-- the repaired reader on the same file: one copy of nothing, for every number of cycles -/
-example : iterO (cycleNew Pn fsN) 3 [incLine] = some [incLine] := by decide
+example : iterO (cycleNew Pn fsN 2) 3 [incLine] = some [incLine] := by decide
+
+/-- nested include files: `+7` holds a line, `+8`, and a further line behind it; file 8 holds one line -/
+def fsNested : FS Nat := fun n =>
+  if n = 7 then some [x, mk 3 .raw 52 (incl := some 8), mk 4 .obj 53] else if n = 8 then some [mk 5 .atom 54] else none
+
+example : iterO (cycleNew Pn fsNested 3) 3 [mk 9 .obj 55, incLine, mk 10 .raw 56]
+    = some (cycle Pn [mk 9 .obj 55, incLine, mk 10 .raw 56]) := by decide
+example : (spliceNew fsNested 3 [incLine]).length = 5 := by decide
 
 /-- a file with every kind of line: comment, two SFAC and two FVAR lines (9 values), a wrapped instruction, an
     uninterpreted wrapped line, an unknown keyword, an atom, a blank line -/
